@@ -268,6 +268,9 @@ def p_C07(ctx):
                            profile="dev", invariants=("ShapeOK", "HandleOK"))
     ctx.drive_and_validate("drive-hist", ["hist", ctx.seed + 14, nh, steps, 8, "{out}", "elem"], "TooDeeTrace", attr_hist_event,
                            profile="release", invariants=("ShapeOK", "HandleOK"))
+    # plain 4-byte cells: the mega histories (over 2^20 cells behind a line removed near the front) only exist for them
+    ctx.drive_and_validate("drive-hist-u32", ["hist", ctx.seed + 15, nh, steps, 8, "{out}", "u32"], "TooDeeTrace", attr_hist_event,
+                           profile="release", invariants=("ShapeOK", "HandleOK"))
 
 
 # --------------------------------------------------------------------------------------
